@@ -55,6 +55,9 @@ var c09Bodies = []string{
 	"nest(3)",
 	"for v <- g(3) v + %i",
 	"if %i == -1 return 4",
+	"if %i < 100000 %i else return 4",
+	"if %i == -1 return 4 else %i + 1",
+	"if %i == -1 return 4 else {\nif %i > 2 %i\n}",
 }
 
 const c09Prelude = "f = (n) -> n + 1\n----\n" +
